@@ -13,13 +13,13 @@ CLAIMS = {
         level="fault_enumeration",
         technique="round-trip and differential property-based testing with an independent RIFF/WAVE encoder (static decode vs encoder values, streaming vs static, seek sequences on index-coded files), generated single-byte corruptions and truncations of valid files, and the repository's compressed assets",
         text="Generated WAV files in every PCM encoding / channel count / length / rate are encoded by an independent writer and must load to exactly the encoded values; the same bytes streamed at rate 1 must yield exactly the loaded frames from any start position, and seek sequences on index-coded files must continue contiguously from the requested frame; every generated single-byte corruption (header-biased) and truncation point must give an error or a prefix, never a panic, a hang (watchdog) or more frames than bytes; the shipped ogg/wav assets are streamed and loaded and compared frame for frame. Random enumeration of fault positions with shrinking.",
-        note="Decoder threads are real and kept ahead through hook H2. Compressed streams are compared from start position 0 only (the non-zero start is a known finding); a libFuzzer target over raw bytes complements the generated corruptions in the thorough tier when built.",
+        note="Decoder threads are real and kept ahead through hook H2. Compressed streams are compared from start position 0 only (the non-zero start is a known finding); the thorough tier adds a libFuzzer stage (fuzz/c18_decode, 250 000 runs, oracle inside the target, artifacts confirmed by a strict replay before they count).",
         design="5/C18",
     ),
     "C14": dict(
         level="exploration",
         technique="differential property-based testing against independent reference implementations: analytic magnitude responses of the cited state-variable designs vs measured sine gains, f64 re-implementations (SVF, delay line with feedback effects, Freeverb network) compared sample by sample, closed-form compressor / distortion / decibel / equal-power laws",
-        text="Each case builds one effect through its public builder with generated parameters and sample rate and checks it against a reference written from the cited papers and sources: measured sine gain vs the analytic response (filter, EQ) with corner / centre / shelf landmarks, sample-by-sample agreement (filter on noise, delay impulse trains incl. non-linear feedback effects, reverb vs an f64 Freeverb network, decaying tail), compressor steady-state reduction and attack time constant, distortion curves and small-signal transparency, volume and panning laws. Search with shrinking.",
+        text="Each case builds one effect through its public builder with generated parameters and sample rate and checks it against a reference written from the cited papers and sources: measured sine gain vs the analytic response (filter, EQ) with corner / centre / shelf landmarks, sample-by-sample agreement (filter on noise, delay impulse trains incl. non-linear feedback effects, reverb vs an f64 Freeverb network, decaying tail), compressor steady-state reduction, attack and release time constants per channel (signal on both, left only, right only), filter / EQ responses also on an instance that lived through a device-rate change, distortion curves and small-signal transparency, volume and panning laws. Search with shrinking.",
         note="The filter's resonance-to-damping mapping (k = 2 - 1.9 r) is taken from the implementation it cites. Tolerances (0.1 dB widened for corners far below the sample rate, 1e-5 .. 2e-4 per sample) are stated in the rule.",
         design="5/C14",
     ),
@@ -110,7 +110,7 @@ CLAIMS = {
     "C06": dict(
         level="exploration",
         technique="stateful property-based testing of kira::Parameter<T> and the tweener modulator against an independent tween model (own easing curves, exact start localisation) over generated set()/update() histories",
-        text="Histories of overlapping set() calls and update steps (zero / sub-update / long durations, all easings, immediate / delayed / clock starts, ten tweenable types plus the tweener modulator) are checked after every update: exact hold before the start, value on the model curve within float tolerance, exactly the target after the end, never outside [start, target], continuity of previous/interpolated values. The timing allowance of the property (one update for delayed and clock starts) is encoded in where the model lets the tween start. Random search with shrinking.",
+        text="Histories of overlapping set() calls and update steps (zero / sub-update / long durations, all easings, immediate / delayed / clock starts, ten tweenable types plus the tweener modulator) are checked after every update: exact hold before the start, value on the model curve within float tolerance, exactly the target after the end, never outside [start, target], continuity of previous/interpolated values. The timing allowance of the property (one update for delayed and clock starts) is encoded in where the model lets the tween start. One case in six tweens a live volume (main track, sub-track, sound, volume-control effect) of a DC signal path through the real manager with callback sizes that are not multiples of the internal buffer and checks the output against the curve in elapsed audio time. Random search with shrinking.",
         note="Parameters are driven directly with MockInfoBuilder (the mock clock shows end-of-update time, as the renderer does). The start value of a retarget is read from the parameter itself.",
         design="5/C06",
     ),
